@@ -6,7 +6,7 @@
    topology) is decided by the implementation-side monitor on the fake servers
    (C10 is labelled partial for that clause, DESIGN.md section 10). *)
 From Coq Require Import ZArith NArith Bool List.
-From Mysync Require Import Gtid.Interval Gtid.GtidSet Base.Prog Base.ProgFacts Base.Config Procs.NodeOps Procs.ActiveNodes Procs.Switchover Procs.Repair Proofs.RepairProofs.
+From Mysync Require Import Gtid.Interval Gtid.GtidSet Base.Prog Base.ProgFacts Base.Config Procs.NodeOps Procs.ActiveNodes Procs.Switchover Procs.Repair Env.World Proofs.RepairProofs Proofs.SettleProofs Proofs.WorldProofs.
 Import ListNotations.
 Open Scope Z_scope.
 
@@ -34,3 +34,50 @@ Theorem C10_no_reset_otherwise : forall cfg h m mem st tr o,
   runs (try_repair_replication cfg h m mem) tr o -> Forall (fun e => no_reset (ev_call e)) tr.
 Proof. intros cfg h m mem st tr o Ha Hs H. exact (allcalls_sound _ _ (try_repair_no_reset_unless_allowed cfg h m mem st Ha Hs) tr o H). Qed.
 Print Assumptions C10_no_reset_otherwise.
+
+(* "... and bring the master ... to the semi-sync setting implied by the active list": whenever adjustSemiSyncOnMaster
+   reports success for a positive count w, the master's health record showed the plugin on or SET ...master_enabled=1
+   was answered OK in that run, and it showed the count w or SET ...wait_for_slave_count=w was answered OK - for every
+   response of every call.  (End to end - over whole manager iterations from arbitrary starting states - the clause is
+   decided on the implementation: TestVerifC10Master.) *)
+Theorem C10_master_semisync_setting_is_brought : forall master ms w tr, 0 < w ->
+  runs (adjust_semi_sync_on_master master ms w) tr (Done None) ->
+  exists en sl cur, ns_semi ms = Some (en, sl, cur) /\
+    (cur = w \/ exists e, In e tr /\ ok_call (Sql master (SSetWaitCount w)) e) /\
+    (en = true \/ exists e, In e tr /\ ok_call (Sql master SSemiSetMaster) e).
+Proof. exact adjust_master_brings_setting. Qed.
+Print Assumptions C10_master_semisync_setting_is_brought.
+
+(* ---- where repair LEADS: the convergence step, in a world model -------------------------------------------------
+   Env/World.v is an executable reading of one MySQL server as mysync's statements see and change it (fault-free),
+   tied to the fake server of the harness by the correspondence check Corr/World.v (the same statement sequences on
+   both).  [wrun p w] runs a program against it. *)
+
+(* what the world produces is one of the runs of the oracle semantics: every theorem about [runs] applies to it *)
+Theorem C10_world_run_is_a_run : forall A (p : prog A) w, runs p (wtrace (wrun p w)) (wout (wrun p w)).
+Proof. exact @wrun_runs. Qed.
+Print Assumptions C10_world_run_is_a_run.
+
+(* what getNodeState reports about the server is what the server is *)
+Theorem C10_observation_is_faithful : forall h casc w, w_host w = h ->
+  exists ns tr, wrun (get_node_state h casc) w =
+                (Done ns, {| w_host := w_host w; w_srv := w_srv w; w_now := w_now w + 1; w_created := w_created w; w_active := w_active w |}, tr)
+                /\ observed_as (w_srv w) casc ns.
+Proof. exact observe_world. Qed.
+Print Assumptions C10_observation_is_faithful.
+
+(* "from any combination of read-only flags, replication sources and thread states ... repeated manager iterations make
+   every reachable HA node read-only and - unless its replication is broken - a replica of the recorded master":
+   ONE fault-free pass of repairSlaveNode over a reachable HA replica whose replication is not in error leaves the
+   server read-only with both threads running from the recorded master, whatever its flags, source (the master,
+   another host, none: a stale master) and thread states were; and the pass returns (no crash). *)
+Theorem C10_one_repair_pass_makes_a_running_replica : forall cfg env h ns mem w,
+  w_host w = h -> h <> re_master env -> observed_as (w_srv w) false ns -> no_repl_error (w_srv w) -> rm_repair mem = [] ->
+  (exists a, wout (wrun (repair_slave_node cfg env h ns mem) w) = Done a) /\
+  replica_ok (re_master env) (w_srv (wworld (wrun (repair_slave_node cfg env h ns mem) w))).
+Proof. exact replica_repair_converges. Qed.
+Print Assumptions C10_one_repair_pass_makes_a_running_replica.
+
+(* the premises are satisfiable, and by a server that is NOT yet in the canonical state *)
+Example C10_convergence_premises_hold : exists ns, observed_as (w_srv w_example) false ns /\ no_repl_error (w_srv w_example) /\ ~ replica_ok 1%N (w_srv w_example).
+Proof. exact world_premises_hold. Qed.
